@@ -268,9 +268,10 @@ class DateTime:
                 locale=locale,
                 tzinfo=tzinfo,
             )
-        except (OverflowError, OSError) as err:
-            # A timestamp outside the range supported by the platform.
-            raise LiquidValueError(str(err), token=None) from err
+        except OSError as err:
+            # A timestamp outside the range supported by the platform. An
+            # OverflowError is already reported as a LiquidTypeError.
+            raise LiquidTypeError(str(err), token=None) from err
 
     def _resolve_timezone(
         self,
